@@ -44,6 +44,8 @@ def gen_decl(rnd, k, opts=None):
     # values: leaves rendered as kessoku.Value(var)
     values = {j for j in range(1, n) if not deps[j] and j != structnode and j not in second and rnd.random() < 0.2}
     argdeps = {i: [a for a in range(nargs) if rnd.random() < 0.3] for i in range(n)}
+    argshape = {a: rnd.choice(["%s", "%s", "*%s", "[]%s", "map[string]%s"]) for a in range(nargs)}
+    def A(a): return argshape[a] % ("%sA%d" % (P, a))
     ctxpos = {}
 
     types_src = []
@@ -69,7 +71,7 @@ def gen_decl(rnd, k, opts=None):
         for j in deps[i]:
             req += dep_types(i, j)
         req += ["*%sX%d" % (P, j) for j, c in second.items() if c == i]
-        req += ["%sA%d" % (P, a) for a in argdeps[i]]
+        req += [A(a) for a in argdeps[i]]
         if i in values:
             req = []
         if req and rnd.random() < 0.08:          # same type required twice
@@ -109,6 +111,26 @@ def gen_decl(rnd, k, opts=None):
     d = dict(name="Init" + P, prefix=P, ret=ret, provs=flat, layout=layout, kind="valid",
              meta=dict(n=n, nargs=nargs, nf=nf, structnode=structnode, second=sorted(second), binds=sorted(binds), values=sorted(values)))
     return d
+
+
+def systematic_leaves(k0):
+    """C05 stream: a root consuming k parameterless providers (every async mask x every order in which the root
+    requires them, i.e. every BFS discovery order), plus an injector argument consumed by the root. Returns a generator of decls."""
+    import itertools
+    k = k0
+    for n in (2, 3):
+        for mask in itertools.product([False, True], repeat=n):
+            for perm in itertools.permutations(range(n)):
+                P = "Y%d" % k
+                k += 1
+                # the root is fallible so that `ctx` is used in every injector (keeps known finding KF-C04-7 out of this stream)
+                provs = [dict(kind="fn", fn="New%sT0" % P, requires=["*%sT%d" % (P, j + 1) for j in perm] + ["%sA0" % P], provides=[["*%sT0" % P]],
+                              fallible=True, node=0, bind=[], **{"async": False})]
+                for j in range(n):
+                    provs.append(dict(kind="fn", fn="New%sT%d" % (P, j + 1), requires=[], provides=[["*%sT%d" % (P, j + 1)]], fallible=False,
+                                      node=j + 1, bind=[], **{"async": mask[j]}))
+                yield dict(name="Init" + P, prefix=P, ret="*%sT0" % P, provs=provs, layout=list(range(len(provs))), kind="valid",
+                           meta=dict(n=n + 1, nargs=1, nf=0, structnode=None, second=[], binds=[], values=[]))
 
 
 def make_layout(rnd, m, P):
@@ -176,6 +198,22 @@ def mutate_malformed(rnd, d, kind):
         d["layout"] = list(range(len(d["provs"])))
         d["kind"] = "dup"
         d["expect"] = dict(err="dup", types=[t])
+        return d
+    if kind == "dupfield":
+        # one Struct expansion whose struct has two exported fields of the same type
+        st = "*%sDSt" % P
+        q = dict(kind="fn", fn="New%sDSt" % P, requires=[], provides=[[st]], fallible=False, node=None, bind=[], **{"async": False})
+        sp = dict(kind="struct", type=st, fields=[["FldA", "%sDF" % P], ["FldB", "%sDF" % P]], requires=[st], provides=[[st]],
+                  fallible=False, fn=None, node=None, wrap="plain", **{"async": False})
+        d["provs"].insert(rnd.randrange(len(d["provs"]) + 1), q)
+        d["provs"].insert(rnd.randrange(len(d["provs"]) + 1), sp)
+        if rnd.random() < 0.5 and fnidx:
+            # and somebody needs the ambiguous type
+            tgt = rnd.choice([p_ for p_ in d["provs"] if p_["kind"] == "fn" and p_.get("node") is not None])
+            tgt["requires"] = tgt["requires"] + ["%sDF" % P]
+        d["layout"] = list(range(len(d["provs"])))
+        d["kind"] = "dup"
+        d["expect"] = dict(err="dup", types=["%sDF" % P])
         return d
     if kind == "orphan":
         # a Struct expansion whose struct type nobody supplies
@@ -339,6 +377,13 @@ def expected_signature(d):
 
 # ---------------------------------------------------------------- rendering
 
+def base_of(t):
+    for pre in ("*", "[]", "map[string]"):
+        if t.startswith(pre):
+            return base_of(t[len(pre):])
+    return t
+
+
 def go_type_decls(d):
     """type declarations needed by d"""
     P = d["prefix"]
@@ -346,8 +391,9 @@ def go_type_decls(d):
     def note(t):
         if t == CTX:
             return
-        base = t.lstrip("*")
-        seen.setdefault(base, t)
+        base = base_of(t)
+        if t.startswith("*") or base not in seen:
+            seen[base] = t
     for p in d["provs"]:
         for t in p["requires"]:
             note(t)
@@ -385,6 +431,10 @@ def go_type_decls(d):
 def term_expr(t, name):
     if t == CTX:
         return '"ctx"'
+    if t.startswith("[]"):
+        return "%s[0].S" % name
+    if t.startswith("map[string]"):
+        return '%s["k"].S' % name
     return "%s.Term()" % name
 
 
